@@ -65,6 +65,7 @@ type refCfg struct {
 	Max        int
 	Base, Cap  time.Duration
 	JNum, JDen *big.Int
+	Timeout    time.Duration
 }
 
 func refConfig(t Tgt) (refCfg, error) {
@@ -84,6 +85,9 @@ func refConfig(t Tgt) (refCfg, error) {
 		return rc, fmt.Errorf("jitter %q", t.Jitter)
 	}
 	rc.JNum, rc.JDen = j.Num(), j.Denom()
+	if rc.Timeout, err = time.ParseDuration(t.Timeout); err != nil {
+		return rc, err
+	}
 	return rc, nil
 }
 
@@ -143,6 +147,9 @@ func judge(sp Spec, res Result) ([]Finding, judgeStats) {
 	if !res.DrainOK {
 		add("drain:timeout", "dispatcher did not drain within 10 virtual minutes")
 	}
+	if res.OtherOpen != 0 {
+		add("terminal:not-reached:other-traffic", "%d of the %d other messages that went through the same store were neither delivered nor dead-lettered", res.OtherOpen, res.OtherSent)
+	}
 	for _, m := range sp.Msgs {
 		for _, s := range res.Logs[m.ID] {
 			if s.ActErr != "" {
@@ -154,7 +161,9 @@ func judge(sp Spec, res Result) ([]Finding, judgeStats) {
 	}
 	tcfg := map[string]refCfg{}
 	for _, t := range sp.Targets {
-		rc, err := refConfig(t)
+		// the target's OWN written settings; what its block does not write comes from the written defaults.deliver
+		// block, else from the documented built-in defaults (cfg_test.go)
+		rc, err := refConfig(effectiveTgt(t, sp.Defaults))
 		if err != nil {
 			panic(err)
 		}
@@ -174,6 +183,10 @@ func judge(sp Spec, res Result) ([]Finding, judgeStats) {
 			perCycle[s.Cycle]++
 			cls := refClass(s.Beh)
 			in := inputClass(s.Beh)
+			if slow := time.Duration(s.Beh.SlowMS) * time.Millisecond; slow > rc.Timeout {
+				// no answer within the target's own timeout: a timeout, whatever would have arrived later
+				cls, in = "retryable", in+"~later-than-timeout"
+			}
 			within := "att<=max"
 			if s.Attempt > rc.Max {
 				within = "att>max"
@@ -304,6 +317,12 @@ func judge(sp Spec, res Result) ([]Finding, judgeStats) {
 		for c, n := range perCycle {
 			if n > rc.Max+1 {
 				add("sends:more-than-max+1", "message %s was sent %d times in cycle %d (retry.max %d)", m.ID, n, c, rc.Max)
+			}
+		}
+		for _, c := range res.Restarts[m.ID] {
+			if perCycle[c] == 0 {
+				add("requeue-cycle:never-sent", "message %s was dead-lettered and put back by the operator (%s, cycle %d) but was never sent again; stored state %q",
+					m.ID, restartName(sp.Restart), c, res.Final[m.ID].State)
 			}
 		}
 		// stored attempt log: one row per send
@@ -928,14 +947,14 @@ func TestCheck(t *testing.T) {
 	for _, part := range []struct {
 		name string
 		f    func()
-	}{{"a", c.partA}, {"b", c.partB}, {"c", c.partC}, {"d", c.partD}, {"e", c.partWire}} {
+	}{{"a", c.partA}, {"b", c.partB}, {"g", c.partG}, {"f", c.partF}, {"c", c.partC}, {"d", c.partD}, {"e", c.partWire}} {
 		t0 := time.Now()
 		if part.name == "c" {
-			c.deadline = c.deadline.Add(-10 * time.Second) // keep room for the small part d
+			c.deadline = c.deadline.Add(-15 * time.Second) // keep room for the small parts d and e
 		}
 		part.f()
 		if part.name == "c" {
-			c.deadline = c.deadline.Add(10 * time.Second)
+			c.deadline = c.deadline.Add(15 * time.Second)
 		}
 		r.Set("wall_s_part_"+part.name, math.Round(time.Since(t0).Seconds()*10)/10)
 	}
